@@ -38,6 +38,10 @@ func init() {
 			ruleCandidateGuards(c, "C08.R4")
 			c.Rule("C08.R6", "reported ips are the lookup for the full request, in its order", 3)
 			ruleReportedInRequestOrder(c, "C08.R6")
+			c.Rule("C08.R7", "a store failure is a failure: errors of the store client are returned; memory is touched only after a successful store call; created objects are fresh copies of unallocated entries", 20)
+			ruleStoreErrorsPropagate(c, "C08.R7")
+			ruleStoreFirst(c, "C08.R7")
+			ruleOnlyUnallocatedCreated(c, "C08.R7")
 			c.Rule("C08.R5", "no bind after a failed allocation", 1)
 			ruleBindAfterAllocate(c, "C08.R5")
 		}})
@@ -56,6 +60,8 @@ func init() {
 			c.Rule("C09.R8", "objects collected for the cache insert / rollback are exactly those this call created (a colliding reserved object is never touched)", 4)
 			ruleCreateBeforeCache(c, "C09.R8")
 			ruleMultiIPAllOrNothing(c, "C09.R8")
+			c.Rule("C09.R9", "a failed reload is retried: the configuration is remembered only after ConfigurePool succeeded", 2)
+			ruleReloadAllOrNothing(c, "C09.R9")
 			c.Rule("C09.R5", "a store Create conflict (IP reserved but not yet seen) is returned, never absorbed", 5)
 			ruleStoreErrorsPropagate(c, "C09.R5")
 			c.Rule("C09.R6", "mutators keep lookup, store write and memory update in one critical section (a concurrent reload cannot interleave)", 12)
